@@ -21,6 +21,7 @@ RULES = [
     Rule('C06.R1b', 'note ageing advances in real time (s * 1e6 us per tick, subtracted as is)', 2),
     Rule('C06.R2', 'the candidate loop keeps the greatest score over all channels except the chosen primary', 3),
     Rule('C06.R3', 'eviction touches only the chosen channel and nothing at all when it has no users', 3),
+    Rule('C06.R4', 'a note takes a second chip channel only when its two voices differ, and the instrument converters leave the two voices of a single-voice instrument equal', 2),
 ]
 EXPLANATION = ('Interval abstract interpretation (E2) of OPNMIDIplay::calculateChipChannelGoodness with the release/key-on ages ranging over the property\'s '
                '10-minute horizon (upper bounds from the 16-bit millisecond fields, koff >= 0 proven from the stores): the ranges of the score on the '
@@ -238,4 +239,65 @@ def analyse(facts, tier):
             if callee_name(x).endswith('OPN2::noteOff') or (sn == 'noteOff' and x.get('obj') is not None):
                 ok = mentions(x['a'][0], lambda y: y.get('id') == c_id) if x.get('a') else False
                 obls.append(Obl('C06.R3', pc.name, 'key-off names channel c', st['loc'], 'discharged' if ok else 'finding', why=show(x)[:70]))
+    obls += r4(facts)
     return obls
+
+
+
+def r4(facts):
+    """One chip channel per single-voice note.  (a) realTime_NoteOn leaves the voice loop after the first voice when voices[0] == voices[1];
+    (b) every converter that fills an OpnInstMeta mirrors voice 0 into voice 1 (`ins.op[1] = ins.op[0]`) and writes neither voice afterwards:
+    a later store to one of them makes every note of the instrument take two chip channels, and with one idle channel the second voice
+    displaces a sounding note."""
+    out = []
+    no = facts.fn('OPNMIDIplay::realTime_NoteOn')
+    eq = None
+    ok = False
+    def rec(t):
+        nonlocal eq, ok
+        if isinstance(t, dict):
+            if t.get('k') == 'IfStmt' and t.get('cond') is not None:
+                c = show(t['cond']).replace(' ', '')
+                if 'voices[0]' in c and 'voices[1]' in c and '==' in c and '!' not in c:
+                    eq = t
+                    th = t.get('then')
+                    th = th['body'][0] if isinstance(th, dict) and th.get('k') == 'CompoundStmt' and len(th.get('body', [])) == 1 else th
+                    if isinstance(th, dict) and th.get('k') == 'BreakStmt':
+                        ok = True
+            for k2 in ('body', 'then', 'else', 'sub', 'init'):
+                v = t.get(k2)
+                if isinstance(v, (dict, list)):
+                    rec(v)
+        elif isinstance(t, list):
+            for y in t:
+                rec(y)
+    rec(no.tree)
+    out.append(Obl('C06.R4', no.name, 'second voice only when the voices differ', ('%s:%s' % (no.file, eq.get('ln')) if eq else no.loc), 'discharged' if ok else 'finding',
+                   why='`if(voices[0] == voices[1]) break;` in the voice loop' if ok else 'the voice loop does not stop after the first voice of a single-voice instrument'))
+    n = 0
+    for fn in facts.all_fns():
+        if fn.tree is None or not fn.relfile().startswith('src/') or '/chips/' in fn.relfile():
+            continue
+        mir = []
+        for b, j, st in fn.cfg.stmts():
+            for x in walk(st['s']):
+                ap = assign_parts(x)
+                if ap and show(strip(ap[0])).endswith('.op[1]') and show(strip(ap[1])).endswith('.op[0]'):
+                    mir.append((b, j, st))
+        for b, j, st in mir:
+            n += 1
+            late = []
+            for b2, j2, st2 in fn.cfg.stmts():
+                if (b2, j2) == (b, j) or not fn.cfg.stmt_before((b, j), (b2, j2)):
+                    continue
+                for x in walk(st2['s']):
+                    ap = assign_parts(x)
+                    tgt = ap[0] if ap else (x['e'] if is_incdec(x) else None)
+                    if tgt is not None and ('.op[0]' in show(strip(tgt)) or '.op[1]' in show(strip(tgt))):
+                        late.append((st2['loc'], show(x)[:60]))
+            out.append(Obl('C06.R4', fn.name, 'voices mirrored last', st['loc'], 'finding' if late else 'discharged',
+                           why=('after `op[1] = op[0]` the function still writes %s: the voices of a single-voice instrument differ and each of its notes takes two chip channels' % late[0][1]) if late else
+                           'no store to either voice after op[1] = op[0]'))
+    if n < 1:
+        raise build.AnalysisBroken('C06.R4: the voice-mirroring statement op[1] = op[0] was not found in any converter')
+    return out
